@@ -71,6 +71,24 @@ func (pc *parentController) callHook(
 		if child.GetNamespace() == "" {
 			child.SetNamespace(parent.GetNamespace())
 		}
+		// If selector generation is enabled, the controller-uid label is part of
+		// every desired child. Add it here, so that everything that looks at the
+		// hook's answer (the rollout gate, the selector check, ManageChildren and
+		// hence the last-applied annotation) sees the same desired child.
+		//
+		// We don't use GetLabels() because that swallows conversion errors; labels
+		// that can't be read are left alone and reported by syncParentObject.
+		if pc.isUsingGeneratedLabelSelector() {
+			if childLabels, _, err := unstructured.NestedStringMap(child.UnstructuredContent(), "metadata", "labels"); err == nil {
+				if childLabels == nil {
+					childLabels = make(map[string]string, 1)
+				}
+				if _, ok := childLabels["controller-uid"]; !ok {
+					childLabels["controller-uid"] = string(parent.GetUID())
+					child.SetLabels(childLabels)
+				}
+			}
+		}
 		children = append(children, child)
 	}
 	response.Children = children
